@@ -1007,6 +1007,7 @@ def plan(tier, seed):
         specs.append({'kind': 'preempt', 'R': 3, 'solo': solo3, 'n': 60})
         specs += [{'kind': 'generated', 'i': i, 'n': 60, 'pairs': 40, 'schedules': 3} for i in range(4)]
         specs += [{'kind': 'js-history', 'i': i, 'n': 40} for i in range(4)]
+        specs += [{'kind': 'js-csv-history', 'i': i, 'n': 30} for i in range(2)]
         specs.append({'kind': 'sqlite-history'})
         specs += [{'kind': 'pandas-history', 'i': i, 'n': 40} for i in range(2)]
         specs += [{'kind': 'frontend-threads', 'n': 25} for i in range(2)]
@@ -1029,6 +1030,7 @@ def plan(tier, seed):
             specs.append({'kind': 'preempt', 'R': 4, 'solo': solo4, 'n': 200})
         specs += [{'kind': 'generated', 'i': i, 'n': 400, 'pairs': 400, 'schedules': 6} for i in range(12)]
         specs += [{'kind': 'js-history', 'i': i, 'n': 200} for i in range(8)]
+        specs += [{'kind': 'js-csv-history', 'i': i, 'n': 120} for i in range(4)]
         specs.append({'kind': 'sqlite-history'})
         specs += [{'kind': 'pandas-history', 'i': i, 'n': 300} for i in range(6)]
         specs += [{'kind': 'frontend-threads', 'n': 150} for i in range(8)]
@@ -1037,9 +1039,60 @@ def plan(tier, seed):
     return specs
 
 
+def leg_js_csv_history(ns, res, spec):
+    """The JS CSV front-end, sequentially in one node process: files with multi-byte characters streamed in chunks that arrive on separate event-loop turns
+    and end inside a character, read by queries that stop early (TOP / LIMIT), fail (runtime, parsing) or run to the end - each result against the
+    same request alone in a fresh node process."""
+    from ..js import bridge
+    rng = random.Random(spec['seed'] * 49979687 + spec['i'])
+    texts = ['é,1\nü,2\n€,3\n😀,4\n', 'a,é\nb,€€\nc,😀\nd,x\n', 'k,"é\n€"\n😀😀,2\n€,3\n', 'ß,ß\nßß,ßß\nßßß,€\n']
+    queries = ['select top 1 a1', 'select a1, a2', 'select a2 limit 2', 'select a1.nosuch.length', 'select a1 where a2 = 1', 'select NR, a1 order by a2', 'select top 1 a2 where NR > 1', 'select a1, a2 limit 0',
+               'select distinct a2', 'update a1 = a2 + "!"']
+    reqs = []
+    for _ in range(spec['n']):
+        data = rng.choice(texts).encode('utf-8')
+        first_nl = data.index(b'\n')
+        inside = [p_ for p_ in range(first_nl + 1, len(data)) if 0x80 <= data[p_] <= 0xbf]     # cut positions that fall inside a multi-byte character, behind the first record
+        pos = rng.choice(inside)
+        chunks = [pos, len(data) - pos] if rng.random() < 0.7 else [pos, 1, len(data) - pos - 1]
+        reqs.append({'bytes_hex': data.hex(), 'chunks': [c for c in chunks if c > 0], 'async_delivery': True, 'encoding': 'utf-8', 'delim': ',', 'policy': rng.choice(['quoted', 'quoted_rfc']), 'has_header': False,
+                     'comment_prefix': None, 'query': rng.choice(queries), 'out_delim': ',', 'out_policy': 'quoted'})
+    key = lambda o: json.dumps({'out': o['bytes_hex'], 'warnings': sorted(o['warnings']), 'error': o['error'] and [o['error']['cls'], o['error']['msg'][:80]]}, sort_keys=True)
+    solo = []
+    for r in reqs:
+        node = bridge.Node.start()
+        if node is None:
+            res.notes.append('js csv history leg: unavailable (no node)')
+            return
+        try:
+            solo.append(key(node.call({'op': 'query_csv_text_batch', 'cases': [r]})['results'][0]))
+        finally:
+            node.close()
+    node = bridge.Node.start()
+    try:
+        for p_ in range(3):
+            order = list(range(len(reqs)))
+            rng.shuffle(order)
+            outs = node.call({'op': 'query_csv_text_batch', 'cases': [reqs[i] for i in order]})['results']
+            for pos, (i, o) in enumerate(zip(order, outs)):
+                res.evaluations += 1
+                res.count('js_csv_history_runs')
+                res.nontrivial('js-csv-hist', reqs[i]['query'], reqs[i]['bytes_hex'], tuple(reqs[i]['chunks']), p_)
+                if key(o) != solo[i]:
+                    prev = [reqs[j]['query'] for j in order[max(0, pos - 3):pos]]
+                    res.violation('js:csv-history-differs-from-fresh-process', '[js] %s over %r in chunks %r after %d other queries (last: %r) -> %s ; alone in a fresh node process -> %s' % (
+                        reqs[i]['query'], bytes.fromhex(reqs[i]['bytes_hex']), reqs[i]['chunks'], pos, prev, key(o)[:300], solo[i][:300]), {'leg': 'js-csv-history', 'requests': [reqs[j] for j in order[:pos + 1]][-6:]})
+        noise = node.take_noise()
+        if noise:
+            res.violation('js:csv-history-async-noise', 'unhandled rejection / uncaught exception in node during the history: %r' % (noise[:3],), {'leg': 'js-csv-history', 'noise': noise[:3]})
+    finally:
+        node.close()
+    res.sample({'leg': 'js-csv-history', 'cases': len(reqs), 'example': {k: v for k, v in reqs[0].items() if k in ('query', 'chunks', 'policy')}})
+
+
 def run_shard(spec, res):
     ns = env.import_rbql()
-    {'history': leg_history, 'interleave': leg_interleave, 'preempt': leg_preempt, 'generated': leg_generated, 'js-history': leg_js_history, 'sqlite-history': leg_sqlite_history, 'pandas-history': leg_pandas_history, 'frontend-threads': leg_frontend_threads, 'csv-history': leg_csv_history, 'shared-table-history': leg_shared_table_history}[spec['kind']](ns, res, spec)
+    {'js-csv-history': leg_js_csv_history, 'history': leg_history, 'interleave': leg_interleave, 'preempt': leg_preempt, 'generated': leg_generated, 'js-history': leg_js_history, 'sqlite-history': leg_sqlite_history, 'pandas-history': leg_pandas_history, 'frontend-threads': leg_frontend_threads, 'csv-history': leg_csv_history, 'shared-table-history': leg_shared_table_history}[spec['kind']](ns, res, spec)
 
 
 def summarize(tier, seed, m):
@@ -1047,7 +1100,7 @@ def summarize(tier, seed, m):
         'rule': '%d scenarios (plain select, like, UNNEST, ORDER BY, DISTINCT COUNT, GROUP BY with all nine aggregates, JOIN, UPDATE with NU, TOP, syntax error, parsing error, runtime error at record 2, aggregate misuse, double UNNEST, and two pairs of identical query texts over differently ordered headers); solo results from one fresh interpreter per scenario; history: every sequence of length <= 2 plus random sequences of length 3..6 in one process; interleaving: every unordered pair of scenarios (incl. a scenario with itself) in two real threads under the cooperative scheduler, ALL interleavings of the get_record / write / finish steps enumerated by stateless DFS (%s); preemption stress with sys.monitoring LINE yield injection; generated queries (C01-C05 generators, failing variants, and header twins: the same query text over the same data with the columns in another order) whose solo results come from forked children of a query-free interpreter, together with a state-reading query (its result is interpreter-wide state: int/str digit limit, recursion limit, switch interval, decimal precision, locale, encodings, buffer size, TZ, csv field limit) three queries whose user init code keeps module-level state (a counter, a memo; each twice), and nine stress queries (5000-digit integers written before a failure, 200000-character cells, 3000-column records, float overflow), then run in three shuffled orders through one interpreter (probe sink and CSV writer sink) and pairwise in two threads under seeded random schedules; the JS port sequentially: generated language-neutral queries alone in a fresh node process each vs three shuffled histories (with failing queries interspersed) in one node process; the sqlite front-end with one connection shared by every ordered pair of 15 queries (utf-8 / latin-1 output, 7 of them failing) vs a fresh connection each, and the caller\'s connection settings before / after; the pandas front-end with ONE DataFrame object (and one join frame) serving histories of 3-6 queries while its owner re-labels, permutes, renames, adds, drops and overwrites columns in place between them, each result compared with the same query over a newly built equal frame in a forked child that ran no query; query_csv histories of 3-8 calls where the meaning of a query text depends on its surroundings (the same relative join table name next to inputs in three directories, a relative input path under a changing working directory, a ~/.rbql_table_names entry re-pointed between calls, dialect / encoding / header flag changing from call to call, failing calls in between), against forked-child baselines; histories of 3-7 queries over ONE list table object with typed cells (numbers, None, strings a CSV sink must quote) and one join table through list and CSV sinks, against fresh copies in forked children; the front-ends side by side: 8 threads running query_csv (five dialects / encodings, JOIN files, failing queries), query_pandas_dataframe and query_sqlite_to_csv under statement-level yield injection in the engine, CSV reader / writer, splitter and adapters, each result compared with a forked child that ran only that task. distinct_nontrivial = distinct step traces realised + distinct history sequences.' % (
             len(SCENARIOS), '2-record tables' if tier == 'quick' else '2- and 3-record tables for all pairs (3-record pairs capped at 20000 schedules), 4-record tables for 6 selected pairs'),
         'exhaustive': m['counters'].get('pairs_truncated', 0) == 0,
-        'required': ['shared_table_history_runs', 'shared_table_solo_results_from_forked_children', 'shared_table_history_sink:csv-quoted', 'shared_table_history_sink:list', 'csv_history_runs', 'csv_history_solo_results_from_forked_children', 'csv_history_solo_failing', 'environment_reader_and_stressor_cases', 'frontend_thread_runs', 'frontend_solo_results_from_forked_children', 'frontend_solo_failing', 'frontend_injected_yields', 'pandas_history_runs', 'pandas_history_solo_results_from_forked_children', 'pandas_history_solo_failing', 'pandas_history_op:relabel', 'pandas_history_op:add', 'sqlite_history_runs', 'sqlite_history_solo_failing', 'js_solo_results_from_fresh_node_processes', 'js_history_runs', 'generated_solo_results', 'generated_header_twins', 'generated_history_runs', 'generated_interleaved_schedules', 'generated_interleaved_handoffs', 'schedules', 'pairs_enumerated_completely', 'handoffs', 'history_runs', 'preemption_runs', 'line_events_in_main_loop', 'injected_yields'],
+        'required': ['js_csv_history_runs', 'shared_table_history_runs', 'shared_table_solo_results_from_forked_children', 'shared_table_history_sink:csv-quoted', 'shared_table_history_sink:list', 'csv_history_runs', 'csv_history_solo_results_from_forked_children', 'csv_history_solo_failing', 'environment_reader_and_stressor_cases', 'frontend_thread_runs', 'frontend_solo_results_from_forked_children', 'frontend_solo_failing', 'frontend_injected_yields', 'pandas_history_runs', 'pandas_history_solo_results_from_forked_children', 'pandas_history_solo_failing', 'pandas_history_op:relabel', 'pandas_history_op:add', 'sqlite_history_runs', 'sqlite_history_solo_failing', 'js_solo_results_from_fresh_node_processes', 'js_history_runs', 'generated_solo_results', 'generated_header_twins', 'generated_history_runs', 'generated_interleaved_schedules', 'generated_interleaved_handoffs', 'schedules', 'pairs_enumerated_completely', 'handoffs', 'history_runs', 'preemption_runs', 'line_events_in_main_loop', 'injected_yields'],
         'assumptions': ['exhaustive at the granularity of iterator / writer calls (what the statement names); statement-level preemption is sampled; bytecode-level is not explored', 'a change of module-level state alone is not a refutation (advisory notes only)'],
     }
 
